@@ -462,9 +462,11 @@ class Cache:
         }
 
         with gzip.open(filename, 'wt') as file_:
-            # Sort keys in order to improve compression
-            file_.write(
-                json.dumps(cache_json, separators=(',', ':'), sort_keys=True))
+            # Don't pass sort_keys=True. It would reorder the entries of the
+            # dictionaries in the arguments and return values, so that a
+            # cached return value would iterate in a different order than
+            # the value the function returned.
+            file_.write(json.dumps(cache_json, separators=(',', ':')))
 
     @staticmethod
     def read_immutable(filename):
